@@ -901,30 +901,49 @@ func (env *Zlisp) FindObject(name string) (Sexp, bool) {
 	return obj, true
 }
 
-func (env *Zlisp) Apply(fun *SexpFunction, args []Sexp) (Sexp, error) {
+func (env *Zlisp) Apply(fun *SexpFunction, args []Sexp) (res Sexp, err error) {
 	//VPrintf("\n\n debug Apply not working on user funcs: fun = '%#v'   and args = '%#v'\n\n", fun, args)
 	if fun.user {
+		// Go-implemented functions and macros are also applied by the
+		// compiler (macro expansion), outside CallUserFunction's recover.
+		defer func() {
+			if r := recover(); r != nil {
+				res, err = SexpNull, fmt.Errorf("Apply caught panic during call of '%s': '%v'", fun.name, r)
+			}
+		}()
 		return fun.userfun(env, fun.name, args)
 	}
 
 	callState := env.captureControlState()
+	// a marker below the arguments: a function that leaves no value (a
+	// bare (return)) must not make Run take an operand of the caller.
+	env.datastack.PushExpr(SexpMarker)
 	env.pc = -2
 	for i, expr := range args {
 		if fun.IsLazyCallArg(i) {
 			env.datastack.PushExpr(NewValueLazyArg(expr))
 			continue
 		}
+		if sym, isSym := expr.(*SexpSymbol); isSym && sym.isDot {
+			// a dot path names something in the scope of whoever applies
+			// the function (see PrepareCallExprArgs)
+			expr, err = env.RValue(expr)
+			if err != nil {
+				env.restoreControlState(callState)
+				return SexpNull, err
+			}
+		}
 		env.datastack.PushExpr(expr)
 	}
 
 	//VPrintf("\nApply Calling '%s'\n", fun.SexpString())
-	err := env.CallFunction(fun, len(args))
+	err = env.CallFunction(fun, len(args))
 	if err != nil {
 		env.restoreControlState(callState)
 		return SexpNull, err
 	}
 
-	res, err := env.Run()
+	res, err = env.Run()
 	if err != nil {
 		env.restoreControlState(callState)
 		return SexpNull, err
@@ -933,6 +952,12 @@ func (env *Zlisp) Apply(fun *SexpFunction, args []Sexp) (Sexp, error) {
 	// above): put it back, or the next Run of a host that called Apply
 	// directly would execute nothing.
 	env.pc = callState.pc
+	if res == SexpMarker {
+		return SexpNull, nil
+	}
+	if top, e := env.datastack.GetExpr(0); e == nil && top == SexpMarker {
+		env.datastack.PopExpr()
+	}
 	return res, nil
 }
 
